@@ -387,6 +387,28 @@ pub fn run_c01_c02(ctx: &mut Ctx, which: Which) {
     placement_family(ctx, which, "placement_promo", placement_promo, t.pick(180_000, 2_000_000));
     placement_family(ctx, which, "placement_checks", placement_checks, t.pick(240_000, 3_000_000));
     placement_family(ctx, which, "placement_near_mate", placement_near_mate, t.pick(120_000, 1_000_000));
+    if which == Which::C01 {
+        // black-box perft of the shipped binary on generated positions
+        run_prop(
+            ctx,
+            "release_binary_perft_cli",
+            || (prop_oneof![placement_general(), placement_castle(), placement_ep(), placement_promo()], 1u32..4),
+            t.pick(160, 2_000),
+            |(r, depth), st| {
+                let Some(p) = build_placement(r) else { return Ok(()) };
+                if p.count() > 14 && *depth == 3 {
+                    return Ok(()); // keep the u32 node counter of the front end far from overflow
+                }
+                st.eval();
+                if label_position(&p, st) {
+                    st.nontrivial(fp(&(&p, depth)));
+                }
+                st.sample(|| json!({"fen": p.fen(), "cli_perft_depth": depth}));
+                cli_perft(&p, *depth)
+            },
+            |(r, depth)| json!({"fen": build_placement(r).map(|p| p.fen()), "cli_perft_depth": depth}),
+        );
+    }
     // E1 complete
     run_enum(
         ctx,
@@ -424,7 +446,32 @@ pub fn run_c01_c02(ctx: &mut Ctx, which: Which) {
     );
 }
 
+/// C01, black-box: the release binary's own perft front end (`walleye -T --depth N --fen F`) prints
+/// the number of generated positions summed over plies 1..N; it must equal the oracle's
+/// perft(1)+...+perft(N). Exercises the shipped (LTO, hooks off) artefact.
+pub fn cli_perft(p: &Pos, depth: u32) -> CaseResult {
+    let bin = std::env::var("WALLEYE_BIN").map_err(|_| "HARNESS: WALLEYE_BIN not set".to_string())?;
+    static N: std::sync::atomic::AtomicU64 = std::sync::atomic::AtomicU64::new(0);
+    let dir = format!("{}/run/perft_{}_{}", std::env::var("VERIF_CACHE").unwrap_or_else(|_| "/verif/.cache".into()), std::process::id(), N.fetch_add(1, std::sync::atomic::Ordering::Relaxed));
+    std::fs::create_dir_all(&dir).ok();
+    let out = std::process::Command::new(&bin).current_dir(&dir).arg(format!("--fen={}", p.fen())).arg("-T").arg("-d").arg(depth.to_string()).stdin(std::process::Stdio::null()).output().map_err(|e| format!("HARNESS: cannot run {}: {}", bin, e));
+    std::fs::remove_dir_all(&dir).ok();
+    let out = out?;
+    let text = String::from_utf8_lossy(&out.stdout).to_string();
+    let got: Option<u64> = text.split(" evaluated ").nth(1).and_then(|r| r.split(' ').next()).and_then(|n| n.parse().ok());
+    let want: u64 = (1..=depth).map(|d| p.perft(d)).sum();
+    match got {
+        Some(g) if g == want => Ok(()),
+        Some(g) => Err(format!("`walleye -T -d {} --fen '{}'` generated {} positions over plies 1..{}, the rules give {}", depth, p.fen(), g, depth, want)),
+        None => Err(format!("`walleye -T -d {} --fen '{}'` printed no node count: stdout {:?}, stderr {:?}", depth, p.fen(), text.lines().next().unwrap_or(""), String::from_utf8_lossy(&out.stderr).lines().next().unwrap_or(""))),
+    }
+}
+
 pub fn replay_c01_c02(which: Which, case: &Value) -> CaseResult {
+    if let Some(d) = case.get("cli_perft_depth").and_then(|x| x.as_u64()) {
+        let fen = case.get("fen").and_then(|x| x.as_str()).ok_or("no fen")?;
+        return cli_perft(&Pos::parse_fen(fen).ok_or("bad fen")?, d as u32);
+    }
     let (start, moves) = parse_game_case(case)?;
     let mut st = Stats::new();
     let r = walk_check(which, &start, &moves, &mut st);
